@@ -38,6 +38,9 @@ func checkC02(c *Ctx) {
 	c.Rule("R2.6", "number formatting: strconv base 10 / shortest 'f' on every path; NaN/±Inf arms agree with their literals", 6)
 	c.Rule("R2.7", "error expansion: message, Causes, Verbose-if-different; nil causes skipped", 6)
 	c.Rule("R2.8", "reflection fallback: HTML escaping off, null shortcut, reset before / trim after", 4)
+	c.Rule("R2.9", "nesting: objects/arrays/namespaces are closed at the level they were opened on every path (incl. marshaler errors)", 10)
+	c1Namespace(c, "R2.9")
+	c1Pairing(c, "R2.9")
 	c2Entry(c)
 	c2Wrappers(c)
 	c2Reference(c)
